@@ -31,6 +31,7 @@ def rules(ctx):
     c045(ctx)
     c046(ctx)
     c047(ctx)
+    c048(ctx)
     from . import C13
     C13.c135(ctx)
 
@@ -294,7 +295,28 @@ def c046(ctx):
             g2 = [g for g in K.compare_guards(f, pt) if g["op"] == "Gt" and "count()" in K.src_names(f, g["a"]) and g["holds"]]
             ctx.check(R, f, "verify_gc-guard", bool(g1) and bool(g2), "verify_gc runs when discard != default and the edit removed files",
                       "verify_gc is no longer run for every edit with a non-empty discard and removed files", pt=pt)
-        # every loop iteration that is not the first passes the discard gate
+        # the state the final gate checks is refreshed by *every* edit, the fragment's first (roll-up) edit included: a fragment that
+        # holds only its roll-up (a session that opened and closed without a transaction) must still verify
+        if fin:
+            heads = [h for h in P.call_points(f, r"ManifestIterator as core::iter::traits::iterator::Iterator>::next$|Iterator>::next$")
+                     if P.reach(f, P.after(f, h), [h]) and any(c.endswith("ManifestIterator::open") for c in P.origin_calls(f, P.term_at(f, h)["args"][0]))]
+            ctx.floor(R, "verify_one edit loop", len(heads), 1)
+            gl = None
+            for op in fin["t"]["args"][:2]:
+                for l_ in K.base_locals(f, op):
+                    if "Option<" in f.locals[l_] and "Setsum" in f.locals[l_]:
+                        ws = [pt_ for (pt_, kind, _p) in P.defs(f).of(l_) if kind in ("assign", "call")]
+                        if any(P.reach(f, P.after(f, h), [w]) is not None and P.reach(f, P.after(f, w), [h]) is not None for h in heads for w in ws):
+                            gl = (l_, ws)
+            ctx.check(R, f, "final-gate-state", gl is not None, "the final gate compares a per-fragment Option<Setsum> that the edit loop assigns",
+                      "the local compared by the final output gate is not assigned in the edit loop")
+            if gl:
+                for h in heads:
+                    q = P.reach(f, P.after(f, h), [h], avoid=set(gl[1]) | set(P.error_points(f)))
+                    ctx.check(R, f, "every-edit-updates-last-output", q is None,
+                              "every edit that passes its checks records its output setsum for the final gate (the roll-up edit too)",
+                              "an edit can pass through the loop without recording its output setsum: a fragment holding only such edits (e.g. just "
+                              "its roll-up) fails the final gate although the history is fault-free", pt=h, path=q)
     f = ctx.fn(R, VER + "LsmVerifier::verify_gc")
     if f:
         gates = K.equality_gates(f, None)
@@ -349,3 +371,69 @@ def c047(ctx):
         for pt in P.call_points(f, r"^lsmtk::SST_FILE$"):
             ctx.check(R, f, "recover-name", K.origin_chain(f, P.term_at(f, pt)["args"][1], ["Setsum::from_digest", "Sst::metadata"]),
                       "the recovered sst is named by the setsum in its own metadata", "the recovered sst's name is not its metadata setsum", pt=pt)
+
+
+# ------------------------------------------------------------------------------------------------
+# C04.8 rejection half: the verifier looks inside the files a transaction adds
+
+def c048(ctx):
+    R = "C04.8"
+    ctx.declare(R, "the verifier can only reject an altered compaction / GC output if it derives that file's setsum from the file's entries: "
+                   "for every added file of a transaction it opens the file and accumulates its entries")
+    f = ctx.fn(R, VER + "LsmVerifier::verify_one")
+    if not f:
+        return
+    # the loop over edit.added(): its iterator originates in mani::Edit::added
+    heads = [h for h in P.call_points(f, r"Iterator>::next$")
+             if P.reach(f, P.after(f, h), [h]) and any(c.endswith("mani::Edit::added") for c in P.origin_calls(f, P.term_at(f, h)["args"][0]))]
+    ctx.floor(R, "verify_one loop over the added files", len(heads), 1)
+    opens = []
+    g = ctx.prog.callgraph()
+    for b, t in f.calls():
+        pt = P.term_pt(f, b.idx)
+        reach_open = False
+        for k in ctx.prog.targets(t):
+            seen, work = set(), [k]
+            while work and not reach_open:
+                x = work.pop()
+                if x in seen or len(seen) > 40:
+                    continue
+                seen.add(x)
+                fx = ctx.prog.fns.get(x)
+                if fx is None or fx.crate != "lsmtk":
+                    continue
+                if fx.skey.endswith("LsmVerifier::get_cursor"):
+                    reach_open = True
+                work += list(g.get(x, ()))
+        if reach_open or (callee_skey(t) or "").endswith("LsmVerifier::get_cursor"):
+            opens.append(pt)
+    # the fragment's first edit (the roll-up: files added and verified by earlier fragments) may be exempt: edges on which a boolean
+    # flag still has the value it was given before the edit loop
+    from blue import bounds as B
+    bf = B.BF(ctx.prog, f)
+    outer = [h for h in P.call_points(f, r"Iterator>::next$")
+             if P.reach(f, P.after(f, h), [h]) and any(c.endswith("ManifestIterator::open") for c in P.origin_calls(f, P.term_at(f, h)["args"][0]))]
+    first_edges = set()
+    for b in P.switch_blocks(f):
+        for lab, _s in b.succs:
+            for (x, op, y) in bf.edge_facts(b.idx, lab):
+                if op == "==" and x[0] == "pl" and not x[2] and y[0] == "c" and f.locals[x[1]] == "bool":
+                    ds = [(pt_, p_) for (pt_, kind, p_) in P.defs(f).of(x[1]) if kind == "assign" and p_["rv"]["r"] == "use" and p_["rv"]["a"].get("k") == "const"]
+                    init = [p_["rv"]["a"]["c"].get("v") for (pt_, p_) in ds if not any(P.reach(f, P.after(f, h_), [pt_]) is not None for h_ in outer)]
+                    if len(ds) >= 2 and init and all(int(bool(v)) == y[1] for v in init):
+                        first_edges.add((b.idx, lab))
+    for h in heads:
+        body_opens = [o for o in opens if P.reach(f, P.after(f, h), [o], avoid=[h]) is not None and P.reach(f, P.after(f, o), [h]) is not None]
+        # one iteration = from the Some edge of this next() back to it
+        some = []
+        dl = P.term_at(f, h)["dest"]["l"]
+        for b in P.switch_blocks(f):
+            d_ = b.term["discr"]
+            if d_.get("k") in ("copy", "move") and any(kind == "assign" and p_["rv"]["r"] == "discr" and p_["rv"]["pl"]["l"] == dl
+                                                        for (_pt, kind, p_) in P.defs(f).of(d_["pl"]["l"])):
+                some += [(s_, 0) for lab, s_ in b.succs if lab == "sw:1"]
+        q = P.reach(f, some, [h], avoid=set(body_opens) | set(P.error_points(f)), avoid_edges=first_edges) if (body_opens and some) else [h[0]]
+        ctx.check(R, f, "added-contents-recomputed", bool(body_opens) and q is None,
+                  "every added file is opened and its entries accumulated while the transaction is verified",
+                  "the setsum of an added file is taken from its name in the manifest only (files are opened just to replay a garbage collection, which "
+                  "compares keys, not values): an output rewritten with one entry altered, dropped or duplicated under the same name is accepted", pt=h)
